@@ -177,6 +177,24 @@ pub broadcast proof fn lemma_one_byte(s: Seq<u8>)
 }
 
 // ---- arithmetic lemmas
+// body-independent facts about the bloom-filter test and power-of-two divisions written with shifts / masks
+pub proof fn lemma_bloom_bit_forms()
+    ensures
+        forall|f: u64, k: u32| k < 64 ==> ((#[trigger] ((f >> k) & 1u64)) == 0u64 <==> (f & (1u64 << k)) == 0u64),
+        forall|h: u32| (#[trigger] (h >> 5u32)) == h / 32u32,
+        forall|h: u32| (#[trigger] (h >> 6u32)) == h / 64u32,
+        forall|h: u32| (#[trigger] (h & 31u32)) == h % 32u32,
+        forall|h: u32| (#[trigger] (h & 63u32)) == h % 64u32,
+{
+    assert forall|f: u64, k: u32| k < 64 implies ((#[trigger] ((f >> k) & 1u64)) == 0u64 <==> (f & (1u64 << k)) == 0u64) by {
+        assert(k < 64 ==> ((((f >> k) & 1u64) == 0u64) <==> ((f & (1u64 << k)) == 0u64))) by (bit_vector);
+    }
+    assert forall|h: u32| (#[trigger] (h >> 5u32)) == h / 32u32 by { assert((h >> 5u32) == h / 32u32) by (bit_vector); }
+    assert forall|h: u32| (#[trigger] (h >> 6u32)) == h / 64u32 by { assert((h >> 6u32) == h / 64u32) by (bit_vector); }
+    assert forall|h: u32| (#[trigger] (h & 31u32)) == h % 32u32 by { assert((h & 31u32) == h % 32u32) by (bit_vector); }
+    assert forall|h: u32| (#[trigger] (h & 63u32)) == h % 64u32 by { assert((h & 63u32) == h % 64u32) by (bit_vector); }
+}
+
 // body-independent facts: a narrowing cast is the mask (r_info splits written as `as u32` / `as u8`)
 pub proof fn lemma_trunc_forms()
     ensures
